@@ -116,22 +116,23 @@ func checkGatePrimitive(c *report.Ctx) {
 		ops := an.LockOps(m)
 		lockPath := m.Params[0].Name() + "." + condField + ".L"
 		okFirst := len(ops) >= 2 && ops[0].Acquire && !ops[0].Deferred && ops[0].Path == lockPath
-		okDefer := false
-		nRelease := 0
+		nAcquire, foreign := 0, false
 		for _, o := range ops {
-			if !o.Acquire {
-				nRelease++
-				if o.Deferred && o.Path == lockPath {
-					okDefer = true
-				}
+			if o.Path != lockPath {
+				foreign = true
+			}
+			if o.Acquire {
+				nAcquire++
 			}
 		}
 		pos := fpos(m)
 		if len(ops) > 0 {
 			pos = an.InstrPos(ops[0].In)
 		}
-		c.Check("R-LOCK", an.FuncName(m)+"/acquire-first-release-by-defer", "the method acquires the latch mutex first and releases it only by defer",
-			okFirst && okDefer && nRelease == 1 && len(ops) == 2, pos, len(ops), "lock operations: %s", lockOpsString(ops))
+		// released on every path to every return: by a deferred unlock that dominates the return, or by hand
+		leaks := heldAtReturns(m, lockPath)
+		c.Check("R-LOCK", an.FuncName(m)+"/acquire-first-release-on-exit", "the method acquires the latch mutex first, once, and gives it up only on its way out (deferred unlock, or a hand-written unlock on every path to every return)",
+			okFirst && nAcquire == 1 && !foreign && len(leaks) == 0, pos, len(ops), "lock operations: %s; returns with the mutex possibly held or a deferred unlock on an unlocked mutex: %v", lockOpsString(ops), leaks)
 		// every access to a state field happens with the lock held
 		nacc := 0
 		bad := ""
@@ -195,6 +196,8 @@ func checkGatePrimitive(c *report.Ctx) {
 		})
 	}
 	c.Check("R-WHO", gateT+"/state-private-to-methods", "latch fields are accessed only by latch methods and NewGate", len(outsiders) == 0, fpos(have["Clear"]), nfields+len(methods), "outside accesses: %v", outsiders)
+
+	checkCancelUnconditional(c)
 
 	// ---- (2) wait in a loop on the full predicate --------------------------
 	c.Clause("2 wait loop")
